@@ -86,10 +86,10 @@ theorem afterRecv_spec (D : Dec F E) (L : Laws D) (seen : Bytes) (toks : List (T
       simp only [hr]
     · rw [hexp]; exact expSound_none D _
     · intro _; exact hexp
-  | error d e' =>
+  | error d exp e' =>
     rintro ⟨d', n, rfl, hn1, hn2, hr0, hr⟩
     simp only [Nat.zero_add] at *
-    have hfl : ({ s with buf := advance d' s.buf } : St).flat = s.flat.drop d' :=
+    have hfl : ({ s with buf := advance d' s.buf, expected := exp } : St).flat = s.flat.drop d' :=
       flat_of_buf s _ d' hI.ne rfl
     refine ⟨rfl, consumed ++ s.flat.take d', n, ?_, ?_, hn1, ?_, ?_⟩
     · rw [hfl, hseen, List.append_assoc, List.take_append_drop]
